@@ -247,7 +247,10 @@ impl LineSymbolMap {
         let mut bl: Vec<_> = blocks.into_iter().collect();
 
         bl.sort_by_key(|&(l, _)| l);
-        
+
+        // Check line numbers are representable (a block read from untrusted input may start anywhere):
+        if bl.iter().any(|(ls, lb)| ls.checked_add(lb.len()).is_none()) { return None; }
+
         // Check not overlapping:
         let not_overlapping = bl.windows(2).all(|win| {
             let [(ls, lb), (rs, _)] = win else { unreachable!() };
@@ -474,6 +477,10 @@ impl DebugSymbols {
         let lines = a.src_info.count_lines();
 
         // B doesn't overlap with A because ObjectFile check
+        // (line numbers of a line table read from untrusted input may not be shiftable)
+        if b.line_map.0.iter().any(|(k, v)| k.checked_add(lines).and_then(|s| s.checked_add(v.len())).is_none()) {
+            return Err(AsmErr::new(AsmErrKind::UndetAddrStmt, []));
+        }
         a.line_map.0.extend({
             b.line_map.0.into_iter()
                 .map(|(k, v)| (k + lines, v))
